@@ -506,7 +506,19 @@ impl<A: Zeroize + Bytes + Default, PM: traits::ProtectMode> Lock<A, PM>
 {
     fn mlock(mut self) -> Result<Protected<A, PM, traits::Locked>, std::io::Error> {
         self.swap_some_or_err(|old| {
-            dryoc_mlock(old.a.as_slice())?;
+            // locking faults the pages in, which fails for inaccessible pages
+            // (on Linux with ENOMEM, while leaving them marked as locked), so
+            // lift the protection of a no-access region for the duration of
+            // the call
+            let noaccess = old.pm == int::ProtectMode::NoAccess;
+            if noaccess {
+                dryoc_mprotect_readonly(old.a.as_slice())?;
+            }
+            let res = dryoc_mlock(old.a.as_slice());
+            if noaccess {
+                dryoc_mprotect_noaccess(old.a.as_slice())?;
+            }
+            res?;
             // update internal state
             old.lm = int::LockMode::Locked;
             Ok(Protected::<A, PM, traits::Locked>::new())
